@@ -1,26 +1,470 @@
 // E1 harness for C09 (latch / event / call_once part): the real pika::latch,
-// pika::experimental::event and pika::call_once under the baton, callers on OS threads.
+// pika::experimental::event and pika::call_once under the baton, callers on OS threads
+// (default, agent=os) or on pika tasks of a live runtime (agent=task, follow-up C09p).
 //
-// case header: kind=latch init=<count> | kind=event | kind=once ; seed= strat=
+// case header: kind=latch init=<count> | kind=event | kind=once ; seed= strat= [agent=os|task]
 // thread ops:  latch: wait ; try ; cd <n> ; aw <n>
 //              event: ewait ; eset ; ereset ; eocc
 //              once : call <throws 0|1>
+#define VERIF_WITH_PIKA_TASKS
 #include "../baton.hpp"
 #include "../e1_main.hpp"
 
+#include <pika/modules/thread_manager.hpp>
+#include <pika/runtime/runtime.hpp>
 #include <pika/synchronization/event.hpp>
 #include <pika/synchronization/latch.hpp>
 #include <pika/synchronization/once.hpp>
 
+#include <pika/threading_base/thread_data.hpp>
+
+#include <chrono>
+#include <csignal>
+#include <execinfo.h>
 #include <memory>
+#include <sstream>
 #include <stdexcept>
+#include <thread>
 
 using namespace verif;
 
+// ---- agent=task: every model thread is a pika task whose blocking goes through pika's own task
+// agent -------------------------------------------------------------------------------------------
+// The task installs a `task_agent` (derived from the baton's verif_agent) on top of its own
+// pika execution_agent.  yield / yield_k / spin_k stay baton preemption points (a spinning task
+// keeps its worker, as it does in pika below k = 16).  suspend() does the controller's book-keeping
+// (same log lines `ag.suspend` / `ag.woke` as the OS-thread agent), hands the baton on WITHOUT
+// blocking the worker and then really suspends the pika task (execution_agent::suspend: state
+// `suspended`, context switch back into the scheduling loop of the worker).  resume() does the
+// book-keeping (`ag.resume`, wake-up token) and then really resumes the target
+// (execution_agent::resume -> set_thread_state(pending); if the target is still `active` - it has
+// been popped from the condition variable before it got as far as its suspension - pika's
+// set_active_state helper task carries the wake-up).  A resumed task continues on whichever worker
+// picks it up and then waits for the baton.  With n tasks and n + 1 workers there is always a free
+// worker (a suspended task holds none), so helper tasks and resumed tasks are always picked up.
+//
+// The log depends on the controller's choices only (thread states change inside controller calls,
+// not when the real wake-up lands), so a case replays exactly; only the trailing `tk.stat` line
+// (number of real suspensions, number of resumes that hit a still-active task) depends on timing.
+//
+// Hooks that fire inside the real suspend / resume calls (scheduler, state word, queues) and in the
+// scheduling loops of the workers are not part of this model: `my_tid` is -1 there and the sink
+// drops them.
+//
+// Lost real wake-up: declared from runtime state, never from elapsed time (see `watchdog`).
+namespace {
+    struct task_agent;
+    struct task_shared    // guarded by controller::m
+    {
+        explicit task_shared(int n)
+          : in_susp(n, 0)
+          , at_point(n, 0)
+          , res_started(n, 0)
+          , res_done(n, 0)
+          , ids(n)
+          , agents(n, nullptr)
+        {
+        }
+        std::vector<int> in_susp;     // 1 from the hand-over of the baton until the real suspend returned
+        std::vector<int> at_point;    // lean mode: the task waits for the baton in a real suspension
+                                      // and is owed one real resume by whoever grants it the baton
+        std::vector<long> res_started, res_done;    // real resume calls aimed at the task
+        std::vector<pika::threads::detail::thread_id_type> ids;
+        std::vector<task_agent*> agents;
+        std::vector<int> spurious;    // tasks whose real suspension ended without a resume
+        long real_suspends = 0, resumes_on_active = 0, baton_suspends = 0;
+        bool drop_real_resume = false;    // self-test of the watchdog (VERIF_C09P_DROP_RESUME=1)
+        // lean mode (case header workers=<W>, any W >= 1, in particular W < number of tasks): a task
+        // that waits for the baton does not block its worker either - it suspends itself through
+        // pika's task agent and the thread that hands the baton to it resumes it.  No task ever
+        // blocks a worker, so n tasks run on fewer than n workers ("more participants than workers").
+        bool lean = false;
+    };
+    task_shared* g_sh = nullptr;
+
+    pika::threads::detail::thread_schedule_state real_state(pika::threads::detail::thread_id_type const& id)
+    {
+        return pika::threads::detail::get_thread_id_data(id)->get_state().state();
+    }
+
+    // Make `a` the current agent of the calling OS thread and leave it there (no restore: pika's
+    // own reset_agent in thread_data::call restores the worker's default agent whenever the task
+    // switches out, and installs the task's execution_agent again whenever a worker - possibly another
+    // one - switches the task in; a scoped reset_agent across a suspension would restore into the
+    // thread-local slot of the wrong OS thread).
+    void install_agent(pika::execution::detail::agent_base& a)
+    {
+        using ra = pika::execution::this_thread::detail::reset_agent;
+        alignas(ra) unsigned char buf[sizeof(ra)];
+        new (buf) ra(a);    // constructor swaps the slot; the destructor is deliberately never run
+    }
+
+    // (lock held) after controller::switch_from: the thread that now has the baton; if it waits for
+    // the baton in a real suspension the caller owes it a real resume (to be issued without the lock)
+    int grant(controller& c, task_shared& sh)
+    {
+        int const nx = c.current;
+        if (!sh.lean || nx < 0 || nx >= c.n || !sh.at_point[nx]) return -1;
+        sh.at_point[nx] = 0;
+        ++sh.res_started[nx];
+        return nx;
+    }
+    void real_resume(controller& c, task_shared& sh, int target, char const* desc, bool counted);
+
+    struct task_agent : verif_agent
+    {
+        pika::execution::detail::agent_base& real;
+        task_shared& sh;
+        task_agent(int t, controller* cc, pika::execution::detail::agent_base& r, task_shared& s)
+          : verif_agent(t, cc)
+          , real(r)
+          , sh(s)
+        {
+        }
+        std::string description() const override { return "verif task_agent"; }
+
+        // really suspend the calling task (it must have marked itself in_susp under the lock)
+        void real_suspend(char const* desc)
+        {
+            my_tid = -1;
+            real.suspend(desc);    // the pika task gives up its worker until somebody resumes it
+            install_agent(*this);  // (possibly on another worker)
+            my_tid = tid;
+        }
+        // (lock held via l) wait until the controller has granted the baton to this task
+        void await_baton(std::unique_lock<std::mutex>& l)
+        {
+            if (sh.lean && c->current != tid)
+            {
+                sh.at_point[tid] = 1;
+                sh.in_susp[tid] = 1;
+                ++sh.baton_suspends;
+                l.unlock();
+                real_suspend("verif: waiting for the baton");
+                l.lock();
+                sh.in_susp[tid] = 0;
+                if (c->current != tid) sh.spurious.push_back(tid);
+            }
+            c->th[tid].cv.wait(l, [&] { return c->current == tid; });
+        }
+        // lean mode: preemption point that holds no worker while it waits
+        void lean_point(char const* site, void const* o, long long a, long long b, tstate st)
+        {
+            std::unique_lock<std::mutex> l(c->m);
+            c->th[tid].st = st;
+            c->switch_from(-1, l);
+            int const r = grant(*c, sh);
+            if (r >= 0)
+            {
+                l.unlock();
+                real_resume(*c, sh, r, "verif: baton", true);
+                l.lock();
+            }
+            await_baton(l);
+            if (c->th[tid].st == tstate::sleeping) c->logf(tid, "ag.timeout", 0, 0, 0);
+            c->th[tid].st = tstate::runnable;
+            c->logf(tid, site, c->obj(o), a, b);
+        }
+        void yield(char const* d) override
+        {
+            if (sh.lean) lean_point("ag.yield", nullptr, 0, 0, tstate::spinning);
+            else verif_agent::yield(d);
+        }
+        void yield_k(std::size_t k, char const* d) override
+        {
+            if (sh.lean) lean_point("ag.yield", nullptr, 0, 0, tstate::spinning);
+            else verif_agent::yield_k(k, d);
+        }
+        void spin_k(std::size_t k, char const* d) override
+        {
+            if (sh.lean) lean_point("ag.yield", nullptr, 0, 0, tstate::spinning);
+            else verif_agent::spin_k(k, d);
+        }
+        void suspend(char const* desc) override
+        {
+            int r = -1;
+            {
+                std::unique_lock<std::mutex> l(c->m);
+                auto& me = c->th[tid];
+                c->logf(tid, "ag.suspend", 0, me.tokens, 0);
+                me.st = me.tokens > 0 ? tstate::runnable : tstate::parked;
+                sh.in_susp[tid] = 1;
+                ++sh.real_suspends;
+                c->switch_from(-1, l);    // pick the next thread, do not wait for the baton here
+                r = grant(*c, sh);
+            }
+            if (r >= 0) real_resume(*c, sh, r, "verif: baton", true);
+            real_suspend(desc);
+            {
+                std::unique_lock<std::mutex> l(c->m);
+                auto& me = c->th[tid];
+                sh.in_susp[tid] = 0;
+                if (me.tokens <= 0) sh.spurious.push_back(tid);
+                await_baton(l);
+                me.st = tstate::runnable;
+                me.tokens--;
+                c->logf(tid, "ag.woke", 0, me.tokens, me.aborted ? 1 : 0);
+            }
+        }
+        void resume(char const* desc) override
+        {
+            c->agent_resume(tid, false);    // book-keeping + `ag.resume` line (tid = target)
+            real_resume(*c, sh, tid, desc, false);
+        }
+        // first / last step of the task (lean mode; otherwise controller::thread_begin / thread_end)
+        void lean_begin()
+        {
+            my_tid = tid;
+            std::unique_lock<std::mutex> l(c->m);
+            c->th[tid].st = tstate::runnable;
+            await_baton(l);
+        }
+        void lean_end()
+        {
+            int r;
+            {
+                std::unique_lock<std::mutex> l(c->m);
+                c->logf(tid, "done", 0, 0, 0);
+                c->th[tid].st = tstate::done;
+                my_tid = -1;
+                c->switch_from(-1, l);
+                r = grant(*c, sh);
+            }
+            if (r >= 0) real_resume(*c, sh, r, "verif: baton", true);
+        }
+    };
+
+    // the real resume of `target` through its pika execution_agent; `counted`: res_started has
+    // already been incremented under the lock that made the grant
+    void real_resume(controller& c, task_shared& sh, int target, char const* desc, bool counted)
+    {
+        int const caller = my_tid;
+        {
+            std::unique_lock<std::mutex> l(c.m);
+            if (!counted) ++sh.res_started[target];
+            if (!counted && real_state(sh.ids[target]) == pika::threads::detail::thread_schedule_state::active)
+                ++sh.resumes_on_active;
+        }
+        my_tid = -1;
+        if (!sh.drop_real_resume || counted) sh.agents[target]->real.resume(desc);
+        my_tid = caller;
+        {
+            std::unique_lock<std::mutex> l(c.m);
+            ++sh.res_done[target];
+        }
+    }
+
+#if defined(PIKA_VERIF_HOOKS)
+    void lean_sink(int phase, char const* site, void const* o, std::uint64_t a, std::uint64_t b) noexcept
+    {
+        int tid = my_tid;
+        if (tid < 0 || g_ctl == nullptr || g_ctl->finished) return;
+        if (phase == 0) g_sh->agents[tid]->lean_point(site, o, (long long) a, (long long) b, tstate::runnable);
+        else g_ctl->note(tid, site, o, (long long) a, (long long) b);
+    }
+#endif
+
+    // A lost wake-up of pika's task agent is declared from state only: the baton has been granted to
+    // task T (so no model thread runs or can run), every real resume call aimed at T has returned,
+    // T's pika state is `suspended`, and the runtime holds nothing that could still wake it: no
+    // pending and no staged task, and the active / suspended tasks are exactly the model threads that
+    // wait for the baton / are suspended (no set_active_state helper alive).  The condition is
+    // stable once true; it is required on 10 consecutive probes only because the four counters are
+    // not read atomically.
+    [[noreturn]] void watchdog(controller& c, task_shared& sh)
+    {
+        using st = pika::threads::detail::thread_schedule_state;
+        auto& tm = pika::detail::get_runtime().get_thread_manager();
+        int quiet = 0;
+        for (;;)
+        {
+            std::this_thread::sleep_for(std::chrono::milliseconds(quiet > 0 ? 1 : 5));
+            std::unique_lock<std::mutex> l(c.m);
+            int const t = c.current;
+            bool cand = t >= 0 && t < c.n && sh.in_susp[t] == 1 && sh.res_started[t] == sh.res_done[t] &&
+                !sh.at_point[t] && c.th[t].st != tstate::done && real_state(sh.ids[t]) == st::suspended;
+            if (cand)
+            {
+                long exp_active = 0, exp_susp = 0;
+                for (int i = 0; i < c.n; ++i)
+                {
+                    if (sh.in_susp[i] == 1) ++exp_susp;
+                    else if (c.th[i].st != tstate::done) ++exp_active;
+                }
+                cand = tm.get_thread_count(st::pending) == 0 && tm.get_thread_count(st::staged) == 0 &&
+                    tm.get_thread_count(st::active) == exp_active &&
+                    tm.get_thread_count(st::suspended) == exp_susp;
+            }
+            quiet = cand ? quiet + 1 : 0;
+            if (quiet >= 10)
+            {
+                c.logf(t, "tk.lost", 0, sh.res_done[t], 0);
+                c.status = "hang";
+                c.finish(l);
+            }
+        }
+    }
+
+    [[noreturn]] void run_task_agents(controller& c, std::vector<std::function<void()>> bodies, int workers)
+    {
+        g_ctl = &c;
+        auto* sh = new task_shared(c.n);
+        g_sh = sh;
+        sh->lean = workers > 0;
+        sh->drop_real_resume = std::getenv("VERIF_C09P_DROP_RESUME") != nullptr;
+        c.on_finish = [&c, sh] {
+            for (int t : sh->spurious) c.logf(t, "tk.spurious", 0, 0, 0);
+            c.logf(0, "tk.stat", 0, sh->real_suspends, sh->resumes_on_active);
+        };
+        std::string threads = "--pika:threads=" + std::to_string(sh->lean ? workers : c.n + 1);
+        char const* argv[] = {"e1", threads.c_str(), "--pika:bind=none", nullptr};
+        pika::start(nullptr, 3, argv);
+        if (std::getenv("VERIF_C09P_BT") != nullptr)
+            std::set_terminate([] {
+                void* b[40];
+                int n = backtrace(b, 40);
+                backtrace_symbols_fd(b, n, 2);
+                _exit(99);
+            });
+#if defined(PIKA_VERIF_HOOKS)
+        pika::verif::sink.store(sh->lean ? &lean_sink : &e1_sink);
+#endif
+        namespace ex = pika::execution::experimental;
+        for (int i = 0; i < c.n; ++i)
+        {
+            ex::start_detached(ex::schedule(ex::thread_pool_scheduler{}) | ex::then([&c, sh, i, &bodies] {
+                auto real = pika::execution::this_thread::detail::agent();
+                task_agent ag(i, &c, real.ref(), *sh);
+                {
+                    std::unique_lock<std::mutex> l(c.m);
+                    sh->ids[i] = pika::threads::detail::get_self_id();
+                    sh->agents[i] = &ag;
+                }
+                install_agent(ag);
+                if (sh->lean) ag.lean_begin();
+                else c.thread_begin(i);
+                bodies[i]();
+                if (sh->lean) ag.lean_end();
+                else c.thread_end(i);
+                install_agent(real.ref());
+                // the task ends here and gives its worker back
+            }));
+        }
+        c.start_all();
+        {
+            int r;
+            {
+                std::unique_lock<std::mutex> l(c.m);
+                r = grant(c, *sh);
+            }
+            if (r >= 0) real_resume(c, *sh, r, "verif: baton", true);
+        }
+        watchdog(c, *sh);
+    }
+
+    // harness preemption point of a body
+    inline void hpt(char const* site, void const* o = nullptr, long long a = 0, long long b = 0)
+    {
+        if (g_sh != nullptr && g_sh->lean) g_sh->agents[my_tid]->lean_point(site, o, a, b, tstate::runnable);
+        else pt(site, o, a, b);
+    }
+}    // namespace
+
+// Run the case in a child of its own with stdout captured; returns the wait status.
+static void run_body(case_t const& c, bool task_mode, bool fell_back);
+static int run_captured(case_t const& c, bool task_mode, unsigned wall, std::string& out)
+{
+    int fd[2];
+    if (pipe(fd) != 0) _exit(3);
+    std::fflush(stdout);
+    pid_t pid = fork();
+    if (pid == 0)
+    {
+        close(fd[0]);
+        dup2(fd[1], 1);
+        close(fd[1]);
+        alarm(wall);
+        run_body(c, task_mode, false);
+        _exit(0);
+    }
+    close(fd[1]);
+    char buf[4096];
+    ssize_t n;
+    while ((n = read(fd[0], buf, sizeof buf)) > 0) out.append(buf, std::size_t(n));
+    close(fd[0]);
+    int st = 0;
+    waitpid(pid, &st, 0);
+    return st;
+}
+
+static std::vector<std::string> log_lines(std::string const& out)
+{
+    std::vector<std::string> v;
+    std::istringstream is(out);
+    std::string l;
+    while (std::getline(is, l))
+        if (l.find(" tk.stat ") == std::string::npos) v.push_back(l);
+    return v;
+}
+
 static void run_one(case_t const& c)
+{
+    if (c.gets("agent", "os") != "task") run_body(c, false, false);
+    // agent=task.  The live runtime runs in a child of its own.  The only wall-clock limit is a
+    // safety net against an unbounded run on an overloaded machine: if it fires (and the state-based
+    // watchdog has declared nothing) the task-mode run is inconclusive - it gives NO verdict - and
+    // the same case is run with the OS-thread agent instead; the log then starts with a
+    // `tk.fallback` line, which the check counts.
+    alarm(0);
+    std::string tout;
+    int st = run_captured(c, true, unsigned(c.geti("wall", 240)), tout);
+    if (WIFSIGNALED(st) && WTERMSIG(st) == SIGALRM)
+    {
+        std::fprintf(stderr, "case %s: task-mode run inconclusive (wall-clock safety net), "
+                             "falling back to the OS-thread agent\n", c.id.c_str());
+        alarm(120);
+        run_body(c, false, true);
+    }
+    if (WIFSIGNALED(st))
+    {
+        std::fputs(tout.c_str(), stdout);
+        std::printf("end crash signal=%d\n", WTERMSIG(st));
+        std::fflush(stdout);
+        _exit(0);
+    }
+    // Differential monitor (independent of the Lean model): the log is a function of the
+    // controller's choices and of what the primitives do, and neither may depend on the kind of
+    // agent that carries the wake-up; so the OS-thread run of the same case (same program, same
+    // schedule seed) must produce the same log line by line (the `tk.stat` line apart).  A
+    // difference is reported as a `tk.diff <first differing line>` line in front of `end`.
+    if (c.geti("diff", 1) != 0 && WIFEXITED(st) && WEXITSTATUS(st) == 0 && tout.find("\nend hang") == std::string::npos)
+    {
+        std::string oout;
+        int st2 = run_captured(c, false, 120, oout);
+        if (!(WIFSIGNALED(st2) && WTERMSIG(st2) == SIGALRM))
+        {
+            auto a = log_lines(tout), b = log_lines(oout);
+            if (std::getenv("VERIF_C09P_DIFF_SELFTEST") != nullptr && b.size() > 3) b.erase(b.end() - 3);
+            std::size_t i = 0;
+            while (i < a.size() && i < b.size() && a[i] == b[i]) ++i;
+            if (i < a.size() || i < b.size())
+            {
+                auto pos = tout.rfind("end ");
+                if (pos == std::string::npos || (pos > 0 && tout[pos - 1] != '\n')) pos = tout.size();
+                tout.insert(pos, "0 tk.diff 0 " + std::to_string(i + 1) + " 0\n");
+            }
+        }
+    }
+    std::fputs(tout.c_str(), stdout);
+    std::fflush(stdout);
+    _exit(WIFEXITED(st) ? WEXITSTATUS(st) : 0);
+}
+
+static void run_body(case_t const& c, bool task_mode, bool fell_back)
 {
     int k = int(c.threads.size());
     auto* ctl = new controller(k, std::uint64_t(c.geti("seed", 1)), int(c.geti("strat", 0)));
+    if (fell_back) ctl->logf(0, "tk.fallback", 0, 0, 0);
     ctl->max_steps = std::size_t(c.geti("maxsteps", 20000));
     std::string kind = c.gets("kind", "latch");
     auto* lt = new pika::latch(c.geti("init", 0));
@@ -39,7 +483,7 @@ static void run_one(case_t const& c)
                 {
                     if (op.name == "wait")
                     {
-                        pt("inv.wait", o);
+                        hpt("inv.wait", o);
                         lt->wait();
                         nt("ret", o, 0);
                     }
@@ -47,38 +491,38 @@ static void run_one(case_t const& c)
                     {
                         // try_wait is a single atomic load: the invocation point is the
                         // preemption point in front of it
-                        pt("inv.try", o);
+                        hpt("inv.try", o);
                         bool r = lt->try_wait();
                         nt("ret", o, r);
                     }
                     else if (op.name == "cd")
                     {
-                        pt("inv.cd", o, a0);
+                        hpt("inv.cd", o, a0);
                         lt->count_down(a0);
                         nt("ret", o, 0);
                     }
                     else if (op.name == "aw")
                     {
-                        pt("inv.aw", o, a0);
+                        hpt("inv.aw", o, a0);
                         lt->arrive_and_wait(a0);
                         nt("ret", o, 0);
                     }
                     else if (op.name == "ewait")
                     {
-                        pt("inv.ewait", o);
+                        hpt("inv.ewait", o);
                         ev->wait();
                         nt("ret", o, 0);
                     }
                     else if (op.name == "eset")
                     {
-                        pt("inv.eset", o);
+                        hpt("inv.eset", o);
                         ev->set();
                         nt("ret", o, 0);
                     }
                     else if (op.name == "ereset")
                     {
                         // reset() is a single atomic store
-                        pt("inv.ereset", o);
+                        hpt("inv.ereset", o);
                         ev->reset();
                         nt("event.stored", o, 0);
                         nt("ret", o, 0);
@@ -86,18 +530,18 @@ static void run_one(case_t const& c)
                     else if (op.name == "eocc")
                     {
                         // occurred() is a single atomic load
-                        pt("inv.eocc", o);
+                        hpt("inv.eocc", o);
                         bool r = ev->occurred();
                         nt("ret", o, r);
                     }
                     else if (op.name == "call")
                     {
-                        pt("inv.call", o, a0);
+                        hpt("inv.call", o, a0);
                         bool threw = false;
                         try
                         {
                             pika::call_once(*fl, [&] {
-                                pt("once.body", o, a0);
+                                hpt("once.body", o, a0);
                                 if (a0 != 0)
                                 {
                                     nt("once.body.end", o, 1);
@@ -120,6 +564,7 @@ static void run_one(case_t const& c)
             }
         });
     }
+    if (task_mode) run_task_agents(*ctl, bodies, int(c.geti("workers", 0)));
     run_os_threads(*ctl, bodies);
 }
 
